@@ -1,5 +1,5 @@
 (* C18, second part: the final theorems of Proof/POwn2*.v, for re-export in Props/Properties_C18.v. *)
-Require Import Htp.Model.Base Htp.Model.MOwn Htp.Model.MOwnCases Htp.Model.MOwn2 Htp.Proof.POwn Htp.Proof.POwn2 Htp.Proof.POwn2Uri Htp.Proof.POwn2Res Htp.Proof.POwn2Dec.
+Require Import Htp.Model.Base Htp.Model.MOwn Htp.Model.MOwnCases Htp.Model.MOwn2 Htp.Proof.POwn Htp.Proof.POwn2 Htp.Proof.POwn2Uri Htp.Proof.POwn2Res Htp.Proof.POwn2Dec Htp.Proof.POwn2Tx Htp.Proof.POwn2Line.
 
 (* ===== FINAL THEOREMS (every one: Closed under the global context) ===== *)
 (* -- htp_parse_hostport / htp_parse_header_hostport / htp_parse_uri_hostport *)
@@ -39,4 +39,19 @@ Print Assumptions ow_connp2_destroy_all_clean.
 Print Assumptions ow_safe_tx_state_response_headers.
 Print Assumptions ow_then_destroy_clean_tx_state_response_headers.
 Print Assumptions ow_tx_state_response_headers_twice_clean.
+(* -- htp_urlenp_create / destroy, htp_mpartp_create / destroy, htp_tx_destroy with the request parsers *)
+Print Assumptions ow_safe_urlenp_create.
+Print Assumptions ow_then_destroy_clean_urlenp_create.
+Print Assumptions ow_urlenp_destroy_clean.
+Print Assumptions ow_safe_mpartp_create.
+Print Assumptions ow_then_destroy_clean_mpartp_create.
+Print Assumptions ow_mpartp_destroy_clean.
+Print Assumptions ow_tx_destroy_full_clean.
+Print Assumptions ow_tx_destroy_spec.
+Print Assumptions ow_parsers_then_tx_destroy_clean.
+(* -- htp_parse_response_line_generic / htp_parse_request_line_generic_ex *)
+Print Assumptions ow_safe_parse_response_line.
+Print Assumptions ow_then_destroy_clean_parse_response_line.
+Print Assumptions ow_safe_parse_request_line.
+Print Assumptions ow_then_destroy_clean_parse_request_line.
 (* ===== END FINAL THEOREMS ===== *)
